@@ -264,6 +264,9 @@ class Scan:
         if not re.fullmatch(PATH_RE, e):
             self.err(s, f'argument {arg!r} is not an access path')
         kind = 'ref' if name in REF | FORWARD_REF else 'deref'
+        # Cudd_Deref / cuddDeref only decrement: the node is not reclaimed (CUDD's idiom
+        # for handing a result back with a zero count); the others may free the node
+        self.light = name in ('Cudd_Deref', 'cuddDeref')
         return kind, e
 
     # -- constructor calls ---------------------------------------------------
@@ -368,7 +371,7 @@ class Scan:
                     return (('derefelem', root_of(e)),), None
                 if root_of(e) in self.elem_of and e not in self.refd:
                     return (('derefelem', self.elem_of[root_of(e)]),), None
-                return (('deref', e),), None
+                return (('derefl' if getattr(self, 'light', False) else 'deref', e),), None
             if '[' in e:
                 self.err(s, 'Ref of a container element')
             return (('ref', e),), None
@@ -816,7 +819,7 @@ def ev_to_coq(e):
     k = e[0]
     if k == 'loop':
         return 'ELoop ' + coq_list([path_to_coq(p) for p in e[1]])
-    name = {'ref': 'ERef', 'deref': 'EDeref', 'owned': 'EOwned', 'store': 'EStore',
+    name = {'ref': 'ERef', 'deref': 'EDeref', 'derefl': 'EDerefLight', 'owned': 'EOwned', 'store': 'EStore',
             'fill': 'EFill', 'derefelem': 'EDerefElem', 'wrap': 'EWrap',
             'ret_wrapped': 'EReturnWrapped', 'ret_node': 'EReturnNode',
             'ret_other': 'EReturnOther', 'raise': 'ERaise', 'setnode': 'ESetNode',
